@@ -4,7 +4,7 @@
 CHECKS["C01"] = dict(
     level="fault_enumeration",
     technique="online AppendOnly monitor on every lock commit and checkpoint publication + offline prefix-root check with an independent RFC 6962 tree, over seeded histories and a complete single-fault (thorough: fault-pair) enumeration of a round",
-    text="Every lock-store commit and every applied checkpoint upload of ~300 (thorough ~6000) generated histories (faults applied/not, crashes, restarts, clock stall/backwards/jump, cache loss) is judged online (signature via certificate-transparency-go, size, strictly increasing timestamp, published subset of committed, root = reference MTH of the harness-known leaves) and every checkpoint ever seen is re-checked against the stored leaves at the end. Fault positions of one round are enumerated completely at tile-boundary sizes. Held-on-observed-executions, not a proof.",
+    text="Every lock-store commit and every applied checkpoint upload of ~640 (thorough ~6000) generated histories (faults applied/not, crashes, restarts, clock stall/backwards/jump, cache loss) is judged online (signature via certificate-transparency-go, size, strictly increasing timestamp, published subset of committed, root = reference MTH of the harness-known leaves) and every checkpoint ever seen is re-checked against the stored leaves at the end. Fault positions of one round are enumerated completely at tile-boundary sizes. Held-on-observed-executions, not a proof.",
     note="Trusted: harness stores (in-memory object store and CAS register with S3-like semantics), reference Merkle/TLS encoders in harness/ref.go, certificate-transparency-go signature verifier. Faults are injected at the Backend/LockBackend interface only.",
     design_ref="DESIGN.md section 3, C01",
     parts=[P("histories", "^TestC01Histories$", shards=(12, 16)), P("faultenum", "^TestC01FaultEnum$", shards=(4, 16))],
@@ -25,7 +25,7 @@ CHECKS["C03"] = dict(
 CHECKS["C04"] = dict(
     level="exploration",
     technique="online StorageAudit monitor at every checkpoint publication (byte-exact reference rendering of hash/data/names tiles and issuers, restricted to uploads completed before the checkpoint upload was issued) + Immutable and DiscardOnlyStaging monitors on every call",
-    text="At the instant each checkpoint upload takes effect, every object the Static CT layout requires for that size must exist among uploads that had returned earlier, with bytes equal to an independent rendering of the harness-known leaf sequence (hash tiles, gunzipped data tiles, names tiles line by line, issuers by fingerprint; leaf i carries index i and a timestamp <= the tree head's). Every Upload is checked against earlier versions of immutable keys and every Discard must name a staging bundle. ~260 (thorough ~5000) histories with all entry shapes and fault/crash plans plus long growth runs across tile boundaries.",
+    text="At the instant each checkpoint upload takes effect, every object the Static CT layout requires for that size must exist among uploads that had returned earlier, with bytes equal to an independent rendering of the harness-known leaf sequence (hash tiles, gunzipped data tiles, names tiles line by line, issuers by fingerprint; leaf i carries index i and a timestamp <= the tree head's). Every Upload is checked against earlier versions of immutable keys and every Discard must name a staging bundle. ~500 (thorough ~5000) histories with all entry shapes and fault/crash plans plus long growth runs across tile boundaries.",
     note="Trusted: harness object store (S3-like blind overwrite so that a rewrite is observable), reference encoders, crypto/x509 for the names-tile expectation. Entries whose certificate cannot be DER are required to contribute no names line; lenient-parser cases are not judged.",
     design_ref="DESIGN.md section 3, C04",
     parts=[P("audit", "^TestC04Audit$", shards=(12, 16)), P("growth", "^TestC04Growth$", shards=(4, 4)),
@@ -84,7 +84,7 @@ CHECKS["C07"] = dict(
 CHECKS["C17"] = dict(
     level="exploration",
     technique="virtual-time executions (testing/synctest) of the real RunSequencer with an online reference model of pool occupancy and priority, settle-point outcome accounting per submitter, lock-history monitor after stops",
-    text="Arrival scripts (15-90 submissions: high/low priority, duplicates, cancelled contexts, bursts) over 3-7 sequencing periods run inside synctest bubbles against the real RunSequencer (ticker, read-only switch and request contexts all on virtual time). Each admission decision is compared with a model of the pool at that instant (room => admitted; full: low => rate-limited; high with a pending low => admitted and exactly one pending low-priority entry receives the eviction outcome; high with none => rate-limited), occupancy never exceeds the pool size, rounds add at most pool-size leaves, every submitter has exactly one outcome by the settle point after its pool's tick (bounded progress in virtual time), evicted entries never appear in the tree, and after a stop (fatal lock error, cancellation, read-only date) every later submission fails with the right error kind and the lock history never grows. 400 (thorough 15000) scripts. A panic inside a wait function is a violation; submissions made after the sequencer stopped, including resubmissions of acknowledged entries, must fail.",
+    text="Arrival scripts (15-90 submissions: high/low priority, duplicates, cancelled contexts, bursts) over 3-7 sequencing periods run inside synctest bubbles against the real RunSequencer (ticker, read-only switch and request contexts all on virtual time). Each admission decision is compared with a model of the pool at that instant (room => admitted; full: low => rate-limited; high with a pending low => admitted and exactly one pending low-priority entry receives the eviction outcome; high with none => rate-limited), occupancy never exceeds the pool size, rounds add at most pool-size leaves, every submitter has exactly one outcome by the settle point after its pool's tick (bounded progress in virtual time), evicted entries never appear in the tree, and after a stop (fatal lock error, cancellation, read-only date) every later submission fails with the right error kind and the lock history never grows. 1000 (thorough 15000) scripts. A panic inside a wait function is a violation; submissions made after the sequencer stopped, including resubmissions of acknowledged entries, must fail.",
     note="'Promptly' is restated as: outcome present at the settle point 4 ms of virtual time before the next tick (rounds take no virtual time on the in-memory stores). An evicted victim whose request context was already cancelled is unobservable and accepted as the victim. The HTTP status mapping (503 + Retry-After for rate-limited and evicted submissions, 410 after the read-only date) is checked by a small real-time scenario on the real handler (part http); if a sequencer tick overtakes the scenario on a loaded machine the scenario is skipped, not judged. Trusted: synctest virtual time, harness stores.",
     design_ref="DESIGN.md section 3, C17",
     parts=[P("scripts", "^TestC17Scripts$", shards=(8, 16)), P("http", "^TestC17HTTP$", shards=(2, 6))],
@@ -94,7 +94,7 @@ CHECKS["C17"] = dict(
 CHECKS["C10"] = dict(
     level="exploration",
     technique="oracles wrapped around the exported codec functions (round trip, canonical-prefix re-encoding, no panic under recover) fed by boundary-biased generators and mutation of valid encodings, differentially against an independent TLS-presentation encoder/strict decoder and an independent tile-path renderer/parser; built with -race (checkptr) for one pass",
-    text="~60k (thorough ~3M) generated entries are encoded and compared bytewise with an independent encoder (TileLeaf and RFC 6962 MerkleTreeLeaf), decoded back, and their encodings mutated (bit flips, truncation at every offset, trailing bytes, length +-1, double/unknown/short/long extensions, entry type, timestamp overflow, odd fingerprint length, concatenation) and decoded with the oracle 'error, or the consumed prefix re-encodes to exactly the same bytes and equals the reference decoder's result'; random strings likewise. Leaf-index extension round trip over all bit lengths and refusal at -1, 2^40, 2^63-1 etc.; tile paths forward (vs. reference renderer, parse back) and backward (mutated strings: accept/reject agreement with the reference parser and canonical re-rendering). Every call runs under recover. Tile-path mutations include other spellings of the level directory (tile/entries, case variants, numeric aliases) and of the top-level directory.",
+    text="~150k (thorough ~3M) generated entries are encoded and compared bytewise with an independent encoder (TileLeaf and RFC 6962 MerkleTreeLeaf), decoded back, and their encodings mutated (bit flips, truncation at every offset, trailing bytes, length +-1, double/unknown/short/long extensions, entry type, timestamp overflow, odd fingerprint length, concatenation) and decoded with the oracle 'error, or the consumed prefix re-encodes to exactly the same bytes and equals the reference decoder's result'; random strings likewise. Leaf-index extension round trip over all bit lengths and refusal at -1, 2^40, 2^63-1 etc.; tile paths forward (vs. reference renderer, parse back) and backward (mutated strings: accept/reject agreement with the reference parser and canonical re-rendering). Every call runs under recover. Tile-path mutations include other spellings of the level directory (tile/entries, case variants, numeric aliases) and of the top-level directory.",
     note="Trusted: harness/ref.go encoders, decoder and path code (written from the RFC/c2sp specs). Levels above 63 in tile paths are not demanded to be rejected (the property asks for canonical round trips only). The Go native fuzz engine is not used (generator + mutation suffices and is seed-deterministic).",
     design_ref="DESIGN.md section 3, C10",
     parts=[P("codec", "^TestC10Codec$", shards=(8, 16)), P("codec-checkptr", "^TestC10Codec$", race=True, shards=(4, 8), tiers=("thorough",))],
@@ -114,7 +114,7 @@ CHECKS["C11"] = dict(
 CHECKS["C09"] = dict(
     level="exploration",
     technique="differential monitor on the real HTTP handler: expected accept/reject computed from the chain generator's knobs; accepted submissions checked by independent SCT verification, an independent raw-ASN.1 precertificate defanger and the stored leaf/issuer objects; get-roots compared with the installed set after every reload incl. failing ones",
-    text="~1200 (thorough ~30000) generated chains (root accepted / unknown / accepted after a reload, 0-3 intermediates, chain order faults, NotAfter at both window boundaries +-1 s, EKU variants, final / precertificate / malformed poison, precertificate signing certificate, matching or wrong endpoint, malformed bodies) are posted to the real handler with a running sequencer. Rejections must be 4xx and leave no leaf and no issuer object; acceptances must return an SCT that verifies (certificate-transparency-go tls verifier) over the leaf the harness derives independently from the submitted chain (entry type, DER or defanged TBS built by a raw-ASN.1 defanger, issuer key hash of the true issuer also behind a signing certificate), the stored leaf must equal that derivation incl. pre_certificate and chain fingerprints, every chain certificate must be retrievable as an issuer, the checkpoint published at response time must cover the index, and resubmission returns the byte-identical response. get-roots is compared with the installed set after creation, reloads, an unparsable reload and reloads whose upload fails (applied or not) followed by a retry. A transient failure of a NEW issuer's upload (generic / timeout / cancelled / EOF error kinds, applied or not) may refuse the submission, but the chain must be accepted on resubmission and then every chain certificate must be retrievable.",
+    text="~3000 (thorough ~30000) generated chains (root accepted / unknown / accepted after a reload, 0-3 intermediates, chain order faults, NotAfter at both window boundaries +-1 s, EKU variants, final / precertificate / malformed poison, precertificate signing certificate, matching or wrong endpoint, malformed bodies) are posted to the real handler with a running sequencer. Rejections must be 4xx and leave no leaf and no issuer object; acceptances must return an SCT that verifies (certificate-transparency-go tls verifier) over the leaf the harness derives independently from the submitted chain (entry type, DER or defanged TBS built by a raw-ASN.1 defanger, issuer key hash of the true issuer also behind a signing certificate), the stored leaf must equal that derivation incl. pre_certificate and chain fingerprints, every chain certificate must be retrievable as an issuer, the checkpoint published at response time must cover the index, and resubmission returns the byte-identical response. get-roots is compared with the installed set after creation, reloads, an unparsable reload and reloads whose upload fails (applied or not) followed by a retry. A transient failure of a NEW issuer's upload (generic / timeout / cancelled / EOF error kinds, applied or not) may refuse the submission, but the chain must be accepted on resubmission and then every chain certificate must be retrievable.",
     note="Leaf without any EKU: recorded, not judged. Oversized bodies are not generated (the handler answers 500 for a body over 128 KiB; the statement is about chains). Trusted: crypto/x509 certificate creation, harness defanger and encoders, ct-go signature verification.",
     design_ref="DESIGN.md section 3, C09",
     parts=[P("chains", "^TestC09Chains$", shards=(8, 16))],
@@ -168,7 +168,7 @@ CHECKS["C14"] = dict(
 CHECKS["C16"] = dict(
     level="exploration",
     technique="exhaustive small-scope request generation against the real sign-subtree handler with an online oracle: every returned line is verified as a subtree cosignature (public verifier) and admitted only for a valid in-range subtree with the reference subtree hash and a key whose valid cosignature is on the presented checkpoint; valid requests must get exactly the expected lines",
-    text="All (start, end) pairs 0 <= start < end <= size+2 for tree sizes 1..33 (thorough 1..80 plus sampled sizes up to 3000), each once with a productive signer set and once with a seeded deviation: signer sets on the presented checkpoint {none, witness ML-DSA, mirror, both, Ed25519 only, foreign witness, forged witness line with the right name and key hash, valid cosignature of another checkpoint pasted in, witness+Ed25519+foreign}, hash {correct, other subtree, flipped}, proof {correct, flipped, truncated, extended}, malformed bodies. Signature lines imply: status 200, valid subtree with end <= size, supplied hash = reference hash of the ground-truth leaves, proof equal to the correct proof, each line verifies with CosignatureVerifier.VerifySubtree under the witness ML-DSA or mirror key and that key's cosignature on the checkpoint verifies independently; no Ed25519 line; no signature text in error responses. Valid requests must be answered with exactly the expected set of lines. Half of the deviating requests present combined signer sets: per own key at most one line that is valid / forged / pasted from another checkpoint / the other key's valid cosignature relabelled with this key's name and key hash (after the genuine lines were verified by the server in an earlier request), plus Ed25519, foreign and name-only lines in seeded order.",
+    text="All (start, end) pairs 0 <= start < end <= size+2 for tree sizes 1..40 (thorough 1..80 plus sampled sizes up to 3000), each once with a productive signer set and once with a seeded deviation: signer sets on the presented checkpoint {none, witness ML-DSA, mirror, both, Ed25519 only, foreign witness, forged witness line with the right name and key hash, valid cosignature of another checkpoint pasted in, witness+Ed25519+foreign}, hash {correct, other subtree, flipped}, proof {correct, flipped, truncated, extended}, malformed bodies. Signature lines imply: status 200, valid subtree with end <= size, supplied hash = reference hash of the ground-truth leaves, proof equal to the correct proof, each line verifies with CosignatureVerifier.VerifySubtree under the witness ML-DSA or mirror key and that key's cosignature on the checkpoint verifies independently; no Ed25519 line; no signature text in error responses. Valid requests must be answered with exactly the expected set of lines. Half of the deviating requests present combined signer sets: per own key at most one line that is valid / forged / pasted from another checkpoint / the other key's valid cosignature relabelled with this key's name and key hash (after the genuine lines were verified by the server in an earlier request), plus Ed25519, foreign and name-only lines in seeded order.",
     note="Subtree proofs are generated with torchwood.ProveSubtree (generator side); the oracle uses the reference Merkle tree and torchwood's public subtree verifier.",
     design_ref="DESIGN.md section 3, C16",
     parts=[P("subtrees", "^TestC16Subtrees$", shards=(4, 16))],
